@@ -533,7 +533,7 @@ theorem toks_text_merge (c a' : Bytes) (hc : c ≠ []) (hno : ∀ b ∈ c, b ≠
       U.hang = false ∧ U.utf8Err = false := by rw [← hUdef]; exact ⟨rfl, rfl, rfl, rfl, rfl, rfl, rfl, rfl⟩
   have hW0 : W.rawS = 0 ∧ W.rawE = 0 ∧ W.err = false ∧ W.rawTag = [] ∧ W.allowCdata = true ∧ W.panic = false ∧
       W.hang = false ∧ W.utf8Err = false := by rw [← hWdef]; exact ⟨rfl, rfl, rfl, rfl, rfl, rfl, rfl, rfl⟩
-  have hclen : 0 < c.length := List.length_pos_of_ne_nil hc
+  have hclen : 0 < c.length := by cases c with | nil => exact absurd rfl hc | cons x xs => simp
   -- the first call on `c ++ a'` = the main loop after skipping `c`
   have hnU : Tokenizer.next U = mainLoop { U with rawE := c.length } := by
     rw [← hUdef, next_new_eq, mainLoop_skip c.length _ rfl (by simp [Tokenizer.new]) (by
@@ -580,13 +580,14 @@ theorem toks_text_merge (c a' : Bytes) (hc : c ≠ []) (hno : ∀ b ∈ c, b ≠
       rw [rawL_eq_take _ hrs0, hbufU, hrawE]
       simp only [List.toList_toArray]
       rw [List.take_append]
-      simp
+      simp only [Nat.add_sub_cancel_left]
+      rw [List.take_of_length_le (by omega)]
     rcases q3 with q3 | ⟨q3, q4⟩
     · have hneW : ¬ ((Tokenizer.next W).token == TokenType.error) = true := by rw [q3]; decide
       have htokW : tokOf (Tokenizer.next W) = textTok (rawL (Tokenizer.next W)) := by
         unfold tokOf textTok; rw [q3]; rfl
       have hrawW : rawL (Tokenizer.next W) = a'.take (Tokenizer.next W).rawE := by
-        rw [rawL_eq_take _ (q2.trans hW0.1), hbufW]; simp
+        rw [rawL_eq_take _ (q2.trans hW0.1), hbufW]
       rw [toks_unfold W hW, if_neg hneW, htokW, hsim, hrawU, hrawW]
       exact ⟨normText_merge _ _ _, rfl⟩
     · -- `a'` is empty: nothing follows
@@ -595,7 +596,7 @@ theorem toks_text_merge (c a' : Bytes) (hc : c ≠ []) (hno : ∀ b ∈ c, b ≠
       have hq : (Tokenizer.next W).rawE = 0 := q4.trans hW0.1
       rw [toks_error W hW q3, hsim, hW2, hrawU, hq]
       simp only [List.take_zero, List.append_nil]
-      refine ⟨rfl, ?_⟩
+      refine ⟨by first | trivial | rfl, ?_⟩
       unfold restL
       rw [hq, hW0.2.1, next_buf' W hW]
   · -- the text `c` was flushed right before a tag of `a'`: restart
@@ -613,6 +614,255 @@ theorem toks_text_merge (c a' : Bytes) (hc : c ≠ []) (hno : ∀ b ∈ c, b ≠
       rw [rawL_eq_take _ hrs0, hbufU, hre]; simp
     rw [hrs, hres, hrawU]
     exact ⟨rfl, rfl⟩
+
+/-! ### the restart law on the level of `htmlTokenize` -/
+
+theorem nextsF_succ_back (k : Nat) (t : Tokenizer) : nextsF (k + 1) t = Tokenizer.next (nextsF k t) := by
+  induction k generalizing t with
+  | zero => rfl
+  | succ k ih => simp only [nextsF]; exact ih (Tokenizer.next t)
+
+theorem firstToks_succ_back (k : Nat) (t : Tokenizer) :
+    firstToks (k + 1) t = firstToks k t ++ [tokOf (Tokenizer.next (nextsF k t))] := by
+  induction k generalizing t with
+  | zero => rfl
+  | succ k ih => simp only [firstToks, nextsF, List.cons_append]; rw [← ih (Tokenizer.next t)]; rfl
+
+theorem loopInv_nextsF (k : Nat) (t : Tokenizer) (h : LoopInv t) : LoopInv (nextsF k t) := by
+  induction k generalizing t with
+  | zero => exact h
+  | succ k ih => exact ih _ h.next
+
+/-- shape of `toks`: `m` proper tokens, then the `ErrorToken` -/
+theorem toks_shape : ∀ (n : Nat) (t : Tokenizer), Tokenizer.Inv t → t.buf.size - t.rawE + 1 ≤ n →
+    (toks t).1 = firstToks (toks t).1.length t ∧
+    (Tokenizer.next (nextsF (toks t).1.length t)).token = .error ∧
+    (toks t).2 = restL (nextsF (toks t).1.length t)
+  | 0, _, _, hf => by omega
+  | n + 1, t, inv, hf => by
+    have i1 := next_inv' t inv
+    by_cases he : ((Tokenizer.next t).token == TokenType.error) = true
+    · have he' : (Tokenizer.next t).token = .error := by simpa using he
+      rw [toks_error t inv he']
+      exact ⟨rfl, he', rfl⟩
+    · have hne : (Tokenizer.next t).token ≠ .error := by simpa using he
+      have hgt := next_rawE_gt t inv hne
+      have hb := next_buf' t inv
+      have hle := i1.ok.le
+      have ih := toks_shape n _ i1 (by rw [hb] at hle ⊢; omega)
+      rw [toks_unfold t inv, if_neg he]
+      simp only [List.length_cons, firstToks, nextsF]
+      exact ⟨by rw [← ih.1], ih.2.1, ih.2.2⟩
+
+theorem new_append (a1 a' : Bytes) :
+    Tokenizer.new (a1 ++ a').toArray = extend (Tokenizer.new a1.toArray) a'.toArray := by
+  unfold extend Tokenizer.new
+  simp
+
+theorem restL_of_buf (s : Tokenizer) (a1 : Bytes) (h : s.buf = a1.toArray) : restL s = a1.drop s.rawE := by
+  unfold restL
+  rw [extract_toList_eq, h]
+  simp
+
+/-- **restart at the `k`-th token boundary** (list level): if after `k` tokens of `a1` EOF has not been hit and no
+raw-text context is pending, then `a1 ++ a'` tokenizes as those `k` tokens followed by the tokens of
+`(unread rest of a1) ++ a'` from a fresh tokenizer -/
+theorem restart_at (a1 a' : Bytes) (hv : V a1) (k : Nat)
+    (herr : (nextsF k (Tokenizer.new a1.toArray)).err = false)
+    (htag : (nextsF k (Tokenizer.new a1.toArray)).rawTag = []) :
+    toks (Tokenizer.new (a1 ++ a').toArray) =
+      (firstToks k (Tokenizer.new a1.toArray) ++
+        (toks (Tokenizer.new (a1.drop (nextsF k (Tokenizer.new a1.toArray)).rawE ++ a').toArray)).1,
+       (toks (Tokenizer.new (a1.drop (nextsF k (Tokenizer.new a1.toArray)).rawE ++ a').toArray)).2) ∧
+    V (a1.drop (nextsF k (Tokenizer.new a1.toArray)).rawE) := by
+  have iu : Tokenizer.Inv (Tokenizer.new a1.toArray) := ⟨Nat.le_refl _, ⟨Nat.zero_le _, rfl, rfl, rfl⟩, TagOk_nil⟩
+  have iT : Tokenizer.Inv (Tokenizer.new (a1 ++ a').toArray) := ⟨Nat.le_refl _, ⟨Nat.zero_le _, rfl, rfl, rfl⟩, TagOk_nil⟩
+  have li := loopInv_nextsF k _ (loopInv_new a1 hv)
+  have hbu : (nextsF k (Tokenizer.new a1.toArray)).buf = a1.toArray := nextsF_buf k _ iu
+  generalize hs : nextsF k (Tokenizer.new a1.toArray) = s at *
+  have hle : s.rawE ≤ a1.length := by have := li.inv.ok.le; rw [hbu] at this; simpa using this
+  have hvp : V (a1.take s.rawE) := by have := li.vp; unfold Vp at this; rw [hbu] at this; simpa using this
+  refine ⟨?_, V_drop hv _ hvp⟩
+  have pr := toks_prefix k (Tokenizer.new (a1 ++ a').toArray) (Tokenizer.new a1.toArray)
+    (by rw [new_append]; exact pre_extend _ _) iT iu (by rw [hs]; exact herr)
+  rw [hs] at pr
+  generalize hS : nextsF k (Tokenizer.new (a1 ++ a').toArray) = S at *
+  have iS : Tokenizer.Inv S := by rw [← hS]; exact nextsF_inv k _ iT
+  have hSbuf : S.buf = (a1 ++ a').toArray := by rw [← hS]; exact nextsF_buf k _ iT
+  have hScd : S.allowCdata = true := by rw [← hS]; exact nextsF_cdata k _ iT
+  have hSe : S.rawE = s.rawE := by have := pr.2.rawE; omega
+  have hrs := toks_restart S iS (pr.2.err.trans herr) (pr.2.rawTag.trans htag) hScd
+  have hres : restartOf S = Tokenizer.new (a1.drop s.rawE ++ a').toArray := by
+    unfold restartOf
+    rw [hSbuf, hSe]
+    congr 1
+    apply Array.ext'
+    simp only [Array.toList_extract, List.toList_toArray, List.extract_eq_take_drop, List.size_toArray]
+    rw [List.drop_append_of_le_length hle, List.take_of_length_le (by simp; omega)]
+  rw [pr.1, hrs, hres]
+
+theorem kindOf_text {k : TokenType} (h : kindOf k = .text) : k = .text := by
+  cases k <;> simp [kindOf] at h ⊢
+
+/-- the decidable syntactic condition "the end of `a1` is a safe cut": no token, or the last token is a (held) text
+containing `<` and the restart point before it is outside every raw-text context and not at EOF, or all tokens are
+complete and no raw-text context is pending, or the last token is a plain text cut by EOF (again with a clean restart
+point before it).  Not allowed: a comment / doctype / `<!…>` / `<?…>` / CDATA cut by EOF, a raw-text zone. -/
+def synSafeEnd (a1 : Bytes) : Bool :=
+  let u0 := Tokenizer.new a1.toArray
+  let m := (toks u0).1.length
+  if m = 0 then true
+  else
+    let sp := nextsF (m - 1) u0
+    let sm := nextsF m u0
+    let tl := tokOf (Tokenizer.next sp)
+    if tl.kind == .text && hasLt tl.raw then !sp.err && sp.rawTag == []
+    else if !sm.err then sm.rawTag == []
+    else tl.kind == .text && (!sp.err && sp.rawTag == [])
+
+theorem splitHeld_snoc_held (pre : List Tok) (tl : Tok) (h : tl.kind = .text ∧ hasLt tl.raw = true) :
+    splitHeld (pre ++ [tl]) = (pre, tl.raw) := by
+  unfold splitHeld
+  simp [h.1, h.2]
+
+theorem splitHeld_snoc_not (pre : List Tok) (tl : Tok) (h : ¬ (tl.kind = .text ∧ hasLt tl.raw = true)) :
+    splitHeld (pre ++ [tl]) = (pre ++ [tl], []) := by
+  unfold splitHeld
+  simp only [List.getLast?_append, List.getLast?_singleton, Option.some_or]
+  rw [if_neg h]
+
+/-- **RESTART LAW for the filter model** (W6's `htmlTokenize_restart`): for complete valid `a1`, `a'` and a
+syntactically safe end of `a1`, tokenising `a1 ++ a'` gives — up to merging of adjacent text tokens — the tokens
+already processed for `a1` (all but a held text containing `<`) followed by the tokens of `held tail ++ a'` obtained
+from a fresh tokenizer, with the same remainder; and the held tail starts at a character boundary. -/
+theorem htmlTokenize_restart (a1 a' : Bytes) (hv : V a1) (hv' : V a') (hsafe : synSafeEnd a1 = true) :
+    normText (htmlTokenize (a1 ++ a')).1 =
+      normText ((splitHeld (htmlTokenize a1).1).1 ++
+        (htmlTokenize ((splitHeld (htmlTokenize a1).1).2 ++ (htmlTokenize a1).2 ++ a')).1) ∧
+    (htmlTokenize (a1 ++ a')).2 =
+      (htmlTokenize ((splitHeld (htmlTokenize a1).1).2 ++ (htmlTokenize a1).2 ++ a')).2 ∧
+    V ((splitHeld (htmlTokenize a1).1).2 ++ (htmlTokenize a1).2) := by
+  have iu : Tokenizer.Inv (Tokenizer.new a1.toArray) := ⟨Nat.le_refl _, ⟨Nat.zero_le _, rfl, rfl, rfl⟩, TagOk_nil⟩
+  have hbuf0 : (Tokenizer.new a1.toArray).buf = a1.toArray := rfl
+  rw [htmlTokenize_eq_toks a1 hv, htmlTokenize_eq_toks (a1 ++ a') (V_append hv hv')]
+  have sh := toks_shape _ _ iu (Nat.le_refl _)
+  unfold synSafeEnd at hsafe
+  simp only at hsafe
+  generalize hm : (toks (Tokenizer.new a1.toArray)).1.length = m at *
+  -- the final step shared by the exact cases: `tail = a1.drop e`
+  have finish : ∀ (k : Nat) (todo : List Tok) (tail : Bytes),
+      (nextsF k (Tokenizer.new a1.toArray)).err = false → (nextsF k (Tokenizer.new a1.toArray)).rawTag = [] →
+      todo = firstToks k (Tokenizer.new a1.toArray) → tail = a1.drop (nextsF k (Tokenizer.new a1.toArray)).rawE →
+      normText (toks (Tokenizer.new (a1 ++ a').toArray)).1 = normText (todo ++ (htmlTokenize (tail ++ a')).1) ∧
+      (toks (Tokenizer.new (a1 ++ a').toArray)).2 = (htmlTokenize (tail ++ a')).2 ∧ V tail := by
+    intro k todo tail herr htag htodo htail
+    have r := restart_at a1 a' hv k herr htag
+    rw [htail, htodo, htmlTokenize_eq_toks _ (V_append r.2 hv'), r.1]
+    exact ⟨rfl, rfl, r.2⟩
+  by_cases hm0 : m = 0
+  · -- no token at all: everything is the remainder
+    have hts : (toks (Tokenizer.new a1.toArray)).1 = [] := List.length_eq_zero_iff.mp (hm0 ▸ hm)
+    rw [hts]
+    have hrem : (toks (Tokenizer.new a1.toArray)).2 = a1 := by
+      rw [sh.2.2, hm0]
+      simp only [nextsF]
+      rw [restL_of_buf _ a1 hbuf0]; rfl
+    have hsp : splitHeld ([] : List Tok) = ([], []) := rfl
+    rw [hsp, hrem]
+    simp only [List.nil_append]
+    rw [htmlTokenize_eq_toks (a1 ++ a') (V_append hv hv')]
+    exact ⟨rfl, rfl, hv⟩
+  · rw [if_neg hm0] at hsafe
+    obtain ⟨m', rfl⟩ : ∃ m', m = m' + 1 := ⟨m - 1, by omega⟩
+    simp only [Nat.add_sub_cancel] at hsafe
+    -- the state before the last token, the last token, the state after it
+    generalize hsp : nextsF m' (Tokenizer.new a1.toArray) = sp at *
+    have hsm : nextsF (m' + 1) (Tokenizer.new a1.toArray) = Tokenizer.next sp := by rw [nextsF_succ_back, hsp]
+    have isp : Tokenizer.Inv sp := by rw [← hsp]; exact nextsF_inv m' _ iu
+    have hspbuf : sp.buf = a1.toArray := by rw [← hsp]; exact nextsF_buf m' _ iu
+    have ism := next_inv' sp isp
+    have hsmbuf : (Tokenizer.next sp).buf = a1.toArray := (next_buf' sp isp).trans hspbuf
+    have hts : (toks (Tokenizer.new a1.toArray)).1 =
+        firstToks m' (Tokenizer.new a1.toArray) ++ [tokOf (Tokenizer.next sp)] := by
+      rw [sh.1, firstToks_succ_back, hsp]
+    have hrem : (toks (Tokenizer.new a1.toArray)).2 = a1.drop (Tokenizer.next sp).rawE := by
+      rw [sh.2.2, hsm, restL_of_buf _ a1 hsmbuf]
+    -- `a1.drop sp.rawE` = raw of the last token ++ remainder
+    have hdrop : a1.drop sp.rawE = (tokOf (Tokenizer.next sp)).raw ++ a1.drop (Tokenizer.next sp).rawE := by
+      have h1 := restL_of_buf sp a1 hspbuf
+      have h2 := restL_of_buf _ a1 hsmbuf
+      rw [← h1, ← h2]
+      show restL sp = rawL (Tokenizer.next sp) ++ restL (Tokenizer.next sp)
+      unfold restL rawL
+      rw [next_buf' sp isp, next_rawS' sp isp]
+      exact extract_split sp.buf sp.rawE (Tokenizer.next sp).rawE sp.buf.size
+        (by rw [← next_rawS' sp isp]; exact ism.raw) (by rw [← next_buf' sp isp]; exact ism.ok.le)
+    rw [hts, hrem]
+    generalize htl : tokOf (Tokenizer.next sp) = tl at *
+    by_cases hheld : (tl.kind == TokKind.text && hasLt tl.raw) = true
+    · -- the last token is a held text: restart before it
+      rw [if_pos hheld] at hsafe
+      have hh : tl.kind = .text ∧ hasLt tl.raw = true := by simpa using hheld
+      have hs2 : sp.err = false ∧ sp.rawTag = [] := by simpa using hsafe
+      rw [splitHeld_snoc_held _ _ hh]
+      exact finish m' _ _ (by rw [hsp]; exact hs2.1) (by rw [hsp]; exact hs2.2) rfl (by rw [hsp, hdrop])
+    · rw [if_neg hheld] at hsafe
+      have hnh : ¬ (tl.kind = .text ∧ hasLt tl.raw = true) := by simpa using hheld
+      rw [splitHeld_snoc_not _ _ hnh]
+      simp only [List.nil_append]
+      by_cases hcomp : (!(Tokenizer.next sp).err) = true
+      · -- every token is complete: restart after the last one
+        rw [hsm, if_pos hcomp] at hsafe
+        have he : (Tokenizer.next sp).err = false := by simpa using hcomp
+        have ht : (Tokenizer.next sp).rawTag = [] := by simpa using hsafe
+        exact finish (m' + 1) _ _ (by rw [hsm]; exact he) (by rw [hsm]; exact ht)
+          (by rw [firstToks_succ_back, hsp, htl]) (by rw [hsm])
+      · -- the last token is a plain text cut by EOF: it merges with what follows
+        rw [hsm, if_neg hcomp] at hsafe
+        have he : (Tokenizer.next sp).err = true := by simpa using hcomp
+        have hs3 : tl.kind = .text ∧ sp.err = false ∧ sp.rawTag = [] := by simpa using hsafe
+        have hnolt : hasLt tl.raw = false := by
+          cases h : hasLt tl.raw with
+          | false => rfl
+          | true => exact absurd ⟨hs3.1, h⟩ hnh
+        -- the remainder is empty
+        have hE : (Tokenizer.next sp).rawE = a1.length := by
+          have li := loopInv_nextsF (m' + 1) _ (loopInv_new a1 hv)
+          rw [hsm] at li
+          have := err_rawE_eq _ li.inv li.eg he
+          rw [hsmbuf] at this; simpa using this
+        have hremnil : a1.drop (Tokenizer.next sp).rawE = [] := by rw [hE]; simp
+        rw [hremnil] at hdrop ⊢
+        simp only [List.append_nil] at hdrop
+        simp only [List.nil_append]
+        -- the last token is the text token `c`
+        have htok : (Tokenizer.next sp).token = .text := by
+          have : kindOf (Tokenizer.next sp).token = .text := by rw [← htl] at hs3; exact hs3.1
+          exact kindOf_text this
+        have htleq : tl = textTok tl.raw := by
+          rw [← htl]; unfold tokOf textTok; rw [htok]; rfl
+        have hcne : tl.raw ≠ [] := by
+          have hp := (next_post sp isp).progress (by rw [htok]; decide)
+          have hlen : (rawL (Tokenizer.next sp)).length = (Tokenizer.next sp).rawE - (Tokenizer.next sp).rawS := by
+            unfold rawL; simp; have := ism.ok.le; omega
+          intro hnil
+          have : tl.raw = rawL (Tokenizer.next sp) := by rw [← htl]; rfl
+          rw [this] at hnil; rw [hnil] at hlen; simp at hlen; omega
+        have hno60 : ∀ b ∈ tl.raw, b ≠ 60 := by
+          intro b hb h60
+          have : tl.raw.contains 60 = true := by rw [← h60]; simpa using hb
+          unfold hasLt at hnolt; rw [this] at hnolt; cases hnolt
+        -- restart before the last token, then merge
+        have r := restart_at a1 a' hv m' (by rw [hsp]; exact hs3.2.1) (by rw [hsp]; exact hs3.2.2)
+        rw [hsp, hdrop] at r
+        have mg := toks_text_merge tl.raw a' hcne hno60
+        rw [htmlTokenize_eq_toks a' hv', r.1]
+        simp only
+        refine ⟨?_, mg.2, V_nil⟩
+        rw [List.append_assoc]
+        apply normText_prefix_congr
+        rw [mg.1, ← htleq]
+        rfl
 
 end Rio.Filter
 
